@@ -5,7 +5,10 @@ by construction, placed by transformations that move the construct without chang
 doc-comment lines above headers, headers split over several lines, modifiers (async / export / pub), one more
 indentation level (if-block / mod), function -> method of a host class / impl, arrow form; call and literal families
 also inside multi-line calls, multi-line collection literals, multi-line chains and behind other code on the same
-line; files with / without the documented header, leading blank lines, with / without a final newline (last construct
+line; every call family in every layout of a call over physical lines (one argument per line with the closing parenthesis
+on its own line, hanging arguments, continuation lines shorter than the call's column, call nested in an exploded outer
+call, multi-line string argument; method calls: multi-line receiver, chain inside an outer call, `.method()` at column 0),
+enumerated x top-level / if-block / method x last statement of the file or not; files with / without the documented header, leading blank lines, with / without a final newline (last construct
 on the last line). DRY: sets of files with the same run of statements behind different amounts of leading comments,
 docstrings and interleaved blank / comment lines.
 
@@ -14,8 +17,9 @@ Oracle (from the statement): for every reported violation that is not a syntax-e
   * nesting / srp / stateless-class: line is the def/function/fn/class/struct header line of the construct the message
     names (never a decorator / attribute line, never a continuation line) and the name occurs on it;
   * magic numbers: line is the literal's line and a numeric literal on that line equals the reported value;
-  * print/console, unwrap/expect, clone, blocking: line lies within the span of a planted call of that family
-    (single-line call: exactly its line); a source excerpt quoted by the message of a single-line call is on that line;
+  * print/console, unwrap/expect, clone, blocking: line is the line of a planted call of that family: the line on which
+    the call expression starts or the line that holds the called name (`.unwrap()` of a chain) - never a line that holds
+    only arguments or the closing parenthesis; a source excerpt quoted by the message is on the reported line;
   * duplicate code: line is a statement of the planted run, and it is the first line of the block: its text equals the
     text at the start of every `file:a-b` twin quoted in the message;
   * every rule: the planted identifiers inside the FIRST quoted item of the message occur on the reported line.
@@ -37,16 +41,20 @@ TECHNIQUE = ("Hypothesis-generated programs with constructs at ground-truth posi
              "a positional oracle derived from the statement: range validity, header/literal/call line, quoted name on the reported line")
 RULE = (
     "case = one file (py/ts/js/rs) of 1-4 planted constructs, each with drawn placement (decorators/attributes, multi-line header, modifier, "
-    "if-block/mod wrapper, method of a host class/impl, arrow form, multi-line call / literal / chain, prefix code on the same line), drawn "
+    "if-block/mod wrapper, method of a host class/impl, arrow form, multi-line call / literal / chain, prefix code on the same line, layout of "
+    "the call over physical lines), drawn "
     "header / leading blank lines / final newline, linted with the commands of the planted families plus drawn others; or a DRY set of 2-3 "
-    "files with the same run behind different leading comments, docstrings and interleaved blank/comment lines. Every reported violation is "
+    "files with the same run behind different leading comments, docstrings and interleaved blank/comment lines; plus two enumerated "
+    "matrices: duplicate-constant layouts, and call family x call layout (exploded / hanging / dedented continuation / nested in an outer call / "
+    "multi-line string argument / multi-line receiver / chain) x wrapper x followed-by-code-or-end-of-file. Every reported violation is "
     "judged. Non-trivial: >= 1 reported violation belongs to a planted construct that is multi-line or sits at line > 1 with indentation > 0 "
     "or was moved by a placement transformation. Distinct = (language, set of (family, placement class)) of the reported planted constructs."
 )
 ASSUMPTIONS = [
     "lines that carry constructs are ASCII, so character and byte columns coincide",
     "the message's first quoted item is its subject; later quoted items (enclosing class, suggested name, follow-up line) are context and are not required on the reported line",
-    "for multi-line calls / chains any line of the call expression is accepted (the statement says 'the call')",
+    "'the line of the call' of a call spread over several lines is the line on which the call expression starts or the line that holds the "
+    "called name (the method of a chain); lines holding only arguments or the closing parenthesis are not (as continuation lines of a header are not)",
     "some rules report 0-based and some 1-based columns; 0 <= column <= len(line)+1 accepts both conventions (a 1-based column may sit just past the last character)",
     "columns are only range-checked (the statement asks for a non-negative column within the line); whether the column points into the construct is recorded as a label only",
     "numeric literals are decimal ints / floats (other spellings are C02's subject)",
@@ -194,7 +202,13 @@ def judge(v, files, truths, runs, lang, p_root):
         inside = [t for t in mine if t.rel <= L <= t.last]
         if inside:
             matched = inside[0]
-            if matched.rel == matched.last:
+            heads = {matched.rel, matched.callee if matched.callee >= 0 else matched.rel}
+            if L not in heads:
+                # a line of the call that holds only arguments / the closing parenthesis is not "the line of the call"
+                out.append((f"{lang}|{rule}|not-the-line-of-the-call|reported-{line_class(src)}",
+                            {"call_starts_at": matched.rel, "called_name_at": sorted(heads)[-1], "call_ends_at": matched.last, "placement": matched.place,
+                             "line_text": src, "call_line_text": lines[matched.rel - 1]}))
+            else:
                 m = re.search(r": (.+)$", msg)
                 if lang == "rs" and m and m.group(1).strip().rstrip(";") not in src:
                     out.append((f"{lang}|{rule}|excerpt-not-on-line", {"line_text": src}))
@@ -295,6 +309,10 @@ def unit_spec(draw, lang):
     fam = draw(st.sampled_from(seeds.families(lang)))
     spec = {"fam": fam, "var": draw(st.integers(0, 9))}
     spec["form"] = draw(st.sampled_from(["seed", "variant", "variant"])) if pr.has_variant(fam, lang) else "seed"
+    if pr.layouts(fam, lang) and draw(st.integers(0, 2)) == 0:
+        spec["form"] = "layout"
+        spec["layout"] = draw(st.integers(0, len(pr.layouts(fam, lang)) - 1))
+        spec["tail"] = draw(st.booleans())
     spec["wrap"] = draw(st.sampled_from(["top", "top", "block", "method"]))
     spec["deco"] = draw(st.sampled_from([0, 0, 1, 2, 3]))
     spec["multisig"] = draw(st.booleans())
@@ -338,10 +356,29 @@ def const_cells():
             for lang in ("py", "ts", "js") for f0 in range(4) for f1 in range(4) for lead in ([0, 2], [3, 0])]
 
 
+def layout_cells():
+    """Every call family x every layout of the call over physical lines x wrapper x (code follows, final newline | call is the
+    last statement of a file without final newline)."""
+    cells = []
+    for lang in LANGS:
+        for fam in pr.CALL_FAMS:
+            for k in range(len(pr.layouts(fam, lang))):
+                for wrap in ("top", "block", "method"):
+                    for tail in (True, False):
+                        spec = {"fam": fam, "var": 0, "form": "layout", "layout": k, "tail": tail, "wrap": wrap, "deco": 0, "multisig": False,
+                                "modifier": False, "arrow": False}
+                        cells.append({"kind": "single", "empty_sibling": 0, "lang": lang, "units": [spec], "header": False, "gap": 1 if tail else 2,
+                                      "final_nl": tail, "cmds": [seeds.FAMILY_CMD[fam]]})
+    return cells
+
+
 def run(ctx):
     mine = ctx.my_cells(const_cells())
     done = ctx.each(mine, check)
     ctx.stats.extra.setdefault("matrix", {})["duplicate constants: language x declaration layout x layout x leading lines"] = {"cells": len(mine), "done": done}
+    mine = ctx.my_cells(layout_cells())
+    done = ctx.each(mine, check)
+    ctx.stats.extra["matrix"]["calls: language x family x layout over physical lines x wrapper x tail"] = {"cells": len(mine), "done": done}
     ctx.explore(cases(), check, max_examples=ctx.n(220, 3000))
 
 
